@@ -45,7 +45,8 @@ Record ptables : Type := PTables {
   ang_mult_neg : nat;
   id_single : list (string * Z);   (* identity term, one control: gates (name, multiplier of coef) on the control *)
   id_multi : list (string * Z);    (* identity term, several controls: gates (name, multiplier of coef) *)
-  id_target : N;                   (* ... and their hard-coded target *)
+  id_target : option N;            (* ... their target: None = the LAST control, controlled by the other controls (current source);
+                                      Some t = a hard-coded target controlled by all controls (source before fix ae252bf) *)
   threshold_exp10 : Z              (* abs(coef) > 1.e<threshold_exp10> *)
 }.
 
